@@ -53,6 +53,13 @@ Obl(e) ==
          <<"outcome-allowed", e.outcome \in AllowedOut(e.avail, 32, {0})>>,
          <<"same-as-std", e.same_outcome /\ e.same_consumed /\ e.same_keys /\ e.same_error>>,
          <<"error-means-no-output", e.outcome = "error" => e.nil_out>> >>
+    \* the key types' Equal / Public methods - beyond the listed properties (reported as observations, never a verdict)
+    [] e.op = "KeyApi" -> <<
+         <<"beyond:quiet", e.panic = "">>,
+         <<"beyond:public-key-equal-as-std", e.fork_pub_eq = e.std_pub_eq /\ e.std_pub_eq = (e.pair = "same")>>,
+         <<"beyond:private-key-equal-as-std", e.fork_priv_eq = e.std_priv_eq /\ e.std_priv_eq = (e.pair = "same")>>,
+         <<"beyond:public-returns-the-public-part", e.public_ok>>,
+         <<"beyond:key-of-another-type-is-not-equal", ~e.foreign_eq>> >>
     [] OTHER -> << <<"unknown-event", FALSE>> >>
 
 Failed(e) == LET o == Obl(e) IN {o[i][1] : i \in {j \in 1..Len(o) : o[j][1] \in Enforce /\ ~o[j][2]}}
